@@ -30,7 +30,7 @@ def run(res, pool, tier, seed):
 
 
 def replay_case(case, tag, rng, tier):
-    out = common.check_intersection(case, rng, 1, "C02.inter", ("func", "swapped"))
+    out = common.check_intersection(case, rng, 1, "C02.inter", ("func", "swapped", "method") if rng.random() < 0.2 else ("func", "swapped"))
     out["cls"] = "|".join(str(x) for x in case["cls"])
     h = case.get("hits")
     if h and h["ok"]:
